@@ -731,6 +731,46 @@ def value_cases(scope, name, key=None, within=None):
     return out
 
 
+def return_cases(scope, fnode=None, key=None):
+    """[(leaf text, [(condition text, polarity)])] of the values a function returns, independent of whether the choice is written
+    with if statements (nested or as early exits: path_guards), with a conditional expression (`return A if c else B`), or with a
+    conditional expression in one argument of the returned call (`return f(x, A if c else B)` = `f(x, A) if c else f(x, B)`;
+    lifted only when the other arguments are plain names / attributes / constants, so that evaluation order cannot matter)."""
+    import copy
+    from .paths import walk_no_nested
+    key = key or (lambda t: ast.unparse(t))
+    fnode = fnode or scope.fi.node
+    out = []
+
+    def plain(e):
+        return all(isinstance(x, (ast.Name, ast.Attribute, ast.Constant, ast.expr_context)) for x in ast.walk(e))
+
+    def flat(v, conds):
+        if isinstance(v, ast.IfExp):
+            flat(v.body, conds + [(key(v.test), True)])
+            flat(v.orelse, conds + [(key(v.test), False)])
+            return
+        if isinstance(v, ast.Call):
+            slots = [("a", i) for i, a in enumerate(v.args) if isinstance(a, ast.IfExp)] + [("k", i) for i, k in enumerate(v.keywords) if isinstance(k.value, ast.IfExp)]
+            others = [a for a in v.args if not isinstance(a, ast.IfExp)] + [k.value for k in v.keywords if not isinstance(k.value, ast.IfExp)]
+            if len(slots) == 1 and all(plain(o) for o in others) and plain(v.func):
+                kind, i = slots[0]
+                cond = v.args[i] if kind == "a" else v.keywords[i].value
+                for branch, pol in ((cond.body, True), (cond.orelse, False)):
+                    w = copy.deepcopy(v)
+                    if kind == "a":
+                        w.args[i] = copy.deepcopy(branch)
+                    else:
+                        w.keywords[i].value = copy.deepcopy(branch)
+                    flat(w, conds + [(key(cond.test), pol)])
+                return
+        out.append((ast.unparse(v) if v is not None else "None", conds))
+    for r in walk_no_nested(fnode):
+        if isinstance(r, ast.Return):
+            flat(r.value, [(key(t), p) for t, p in scope.path_guards(r)])
+    return out
+
+
 def list_events(scope, name, key=None):
     """How a local list is built, in program order: [(kind, element keys or expression key, guards)] with kind
     'set' (plain assignment), 'prepend' (L = [a]+L / L.insert(0, a)), 'append' (L = L+[b] / L += [b] / L.append(b) / L.extend([b])),
